@@ -1,6 +1,12 @@
 use crate::errors::PriceLevelError;
 use crate::orders::{OrderId, OrderType};
 #[cfg(feature = "verif-hooks")]
+#[allow(unused_imports)]
+use crossbeam::queue::*;
+#[cfg(feature = "verif-hooks")]
+#[allow(unused_imports)]
+use dashmap::*;
+#[cfg(feature = "verif-hooks")]
 use crate::verif::{DashMap, SegQueue};
 #[cfg(not(feature = "verif-hooks"))]
 use crossbeam::queue::SegQueue;
